@@ -237,7 +237,7 @@ def explore_cfg(cfg, dbound, on_run):
 
 
 def plan(tier, seed):
-    d = 3 if tier == 'quick' else 5
+    d = 4 if tier == 'quick' else 6
     units = [{'cfg': c, 'd': d} for c in configs()]
     return {
         'units': units,
